@@ -191,6 +191,20 @@ fn scenario(p: Params) -> ExecResult {
 }
 
 pub fn main(args: &Args) -> i32 {
+    if let Some(p) = &args.replay {
+        return crate::sched::replay(p, |_, j| {
+            let arr3 = |k: &str| -> Vec<serde_json::Value> { j[k].as_array().cloned().unwrap_or_default() };
+            let y = arr3("yields");
+            let m = arr3("muts");
+            let p = Params {
+                spawn: j["spawn"].as_bool().unwrap_or(false),
+                yields: [0, 1, 2].map(|i| y.get(i).and_then(|v| v.as_u64()).unwrap_or(0) as u32),
+                muts: [0, 1, 2].map(|i| m.get(i).and_then(|v| v.as_bool()).unwrap_or(false)),
+                burst: j["burst"].as_bool().unwrap_or(true),
+            };
+            Some(Box::new(move || scenario(p)))
+        });
+    }
     let report = Report::new("C29", args.tier, args.seed, "model_checking");
     let totals = Mutex::new(Totals::default());
     let quick = args.tier == vcommon::Tier::Quick;
